@@ -4,6 +4,7 @@ R-C12-1  must-not taint: party_capacity and gens_capacity reach only loop bounds
          bytes or the chain seeds; chains are consumed as prefixes
 R-C12-2  padding and table have one origin (prover and verifier)      [= R-C01-2]
 R-C12-3  the prefix comparisons of the vector generators are made against the selected largest member and zip the two iterators directly
+R-C12-5  the capacity-dependent code (consistency function, generator iterators, padding) has no undischarged panic site
 R-C12-4  must-not taint: nothing absorbed into the proof transcript depends on the aggregation capacity of the parameters object
          (a proof made under one capacity must replay under another)
 """
@@ -104,3 +105,15 @@ def run(ctx):
                   'the %s absorbs data that depends on the aggregation capacity: %s' % (role, [((e.label() or b'?').decode('latin1'), short(e.data(), 80)) for e in bad[:3]]),
                   ctx.where(bad[0].body, bad[0].bb) if bad else ctx.where(body))
 
+    # ---- R-C12-5 mixed capacities are refused or handled, never a panic: the capacity-dependent code (consistency function, generator
+    # iterators and their accessors, padding) has no undischarged panic site (same enumeration as C16, rooted here)
+    from . import panics
+    roots5 = []
+    if cons is not None:
+        roots5.append(cons)
+    for suffix in ('BulletproofGens::<P>::g_iter', 'BulletproofGens::<P>::h_iter', 'compute_generator_padding'):
+        b_ = ctx.fn(suffix, 'R-C12-5', required=False)
+        if b_ is not None:
+            roots5.append(b_)
+    if roots5:
+        panics.check_panic_sites(ctx, 'R-C12-5', roots5, floor=0)
